@@ -76,6 +76,13 @@ fn fmt_control(k: &str, v: &str) -> Option<String> {
     Some(v.to_string())
 }
 
+/// a formatter that rewrites its value: the comma-separated items trimmed, sorted, joined by ", "
+fn fmt_sort_items(_k: &str, v: &str) -> String {
+    let mut items: Vec<String> = v.split(',').map(|s| s.trim().to_string()).collect();
+    items.sort();
+    items.join(", ")
+}
+
 fn wrap_para(c: &Cfg, p: &Paragraph) -> Paragraph {
     if c.fmt == "c" {
         // through the typed wrappers: Source for a paragraph with a Source field, Binary otherwise
@@ -99,6 +106,7 @@ fn wrap_para(c: &Cfg, p: &Paragraph) -> Paragraph {
     let fmt: Option<&dyn Fn(&str, &str) -> String> = match c.fmt.as_str() {
         "i" => Some(&fmt_identity),
         "u" => Some(&fmt_comma_lines),
+        "s" => Some(&fmt_sort_items),
         _ => None,
     };
     p.wrap_and_sort(c.ind, c.imm, c.max, ecmp, fmt)
@@ -108,6 +116,7 @@ fn wrap_entry(c: &Cfg, e: &Entry) -> Entry {
     let fmt: Option<&dyn Fn(&str, &str) -> String> = match c.fmt.as_str() {
         "i" => Some(&fmt_identity),
         "u" => Some(&fmt_comma_lines),
+        "s" => Some(&fmt_sort_items),
         _ => None,
     };
     e.wrap_and_sort(c.ind, c.imm, c.max, fmt)
@@ -120,8 +129,10 @@ fn wrap_doc(c: &Cfg, d: &Deb822) -> Deb822 {
         return ctl.into();
     }
     let by_pkg = |a: &Paragraph, b: &Paragraph| a.get("Package").cmp(&b.get("Package"));
+    // a comparator on a value the formatters rewrite: the order is that of the REFORMATTED paragraphs
+    let by_dep = |a: &Paragraph, b: &Paragraph| a.get("Depends").cmp(&b.get("Depends"));
     let pcmp: Option<&dyn Fn(&Paragraph, &Paragraph) -> std::cmp::Ordering> =
-        if c.pcmp == "p" { Some(&by_pkg) } else { None };
+        if c.pcmp == "p" { Some(&by_pkg) } else if c.pcmp == "d" { Some(&by_dep) } else { None };
     let wp = |p: &Paragraph| wrap_para(c, p);
     if c.fmt == "x" {
         // no per-paragraph callback at all
@@ -271,6 +282,8 @@ pub fn handle(op: &str, a: &[&str]) -> Option<Resp> {
                             .map(|(k, v)| {
                                 let v2 = if c.fmt == "u" {
                                     fmt_comma_lines(k, v)
+                                } else if c.fmt == "s" {
+                                    fmt_sort_items(k, v)
                                 } else if c.fmt == "c" {
                                     fmt_control(k, v).unwrap_or_else(|| v.clone())
                                 } else {
@@ -285,7 +298,7 @@ pub fn handle(op: &str, a: &[&str]) -> Option<Resp> {
                     o1.content.iter().map(|p| p.iter().map(|(k, v)| (k.clone(), nb_trim(v))).collect()).collect();
                 let sort_entries = c.ecmp != "n" && *level != "e" && c.fmt != "x" && c.fmt != "c";
                 let ctl_doc = c.fmt == "c" && *level == "d";
-                let sort_paras = (c.pcmp == "p" && c.fmt != "c" || ctl_doc) && *level == "d";
+                let sort_paras = ((c.pcmp == "p" || c.pcmp == "d") && c.fmt != "c" || ctl_doc) && *level == "d";
                 let canon = |ps: &Vec<Vec<NF>>| -> Vec<Vec<NF>> {
                     let mut ps: Vec<Vec<NF>> = ps
                         .iter()
@@ -332,10 +345,11 @@ pub fn handle(op: &str, a: &[&str]) -> Option<Resp> {
                     }
                 }
                 if fail.is_none() && sort_paras && !ctl_doc {
+                    let sort_key = if c.pcmp == "d" { "Depends" } else { "Package" };
                     let keys: Vec<Option<String>> = o1
                         .content
                         .iter()
-                        .map(|p| p.iter().find(|f| f.0 == "Package").map(|f| f.1.clone()))
+                        .map(|p| p.iter().find(|f| f.0 == sort_key).map(|f| f.1.clone()))
                         .collect();
                     if !keys.windows(2).all(|w| w[0] <= w[1]) {
                         fail = Some(format!("paragraphs not in the requested order: {:?}", keys));
@@ -476,6 +490,17 @@ pub fn generate_c07(tier: &str, seed: u64, out: &mut Out) {
         out.req("deb.wrap", &["d".to_string(), es(&many_paras), c.to_string()]);
         out.req("deb.wrap", &["d".to_string(), es(&many_entries), c.to_string()]);
         out.req("deb.wrap", &["p".to_string(), es(&many_entries), c.to_string()]);
+    }
+    // a paragraph comparator on a value that the formatter rewrites ("z, a" < "b, c" flips once the
+    // items are sorted): the requested order is that of the reformatted paragraphs
+    for t in [
+        "Package: one\nDepends: z, a\n\nPackage: two\nDepends: b, c\n",
+        "Package: two\nDepends: b, c\n\nPackage: one\nDepends: z, a\n",
+        "Package: p\nDepends: y,x\n\nPackage: q\nDepends: x , z\n\nPackage: r\n",
+    ] {
+        for cfg in ["1/0/n/n/d/s", "4/1/79/n/d/s", "2/0/n/k/d/s", "1/0/n/n/d/n", "1/0/n/n/d/u", "1/0/n/n/p/s"] {
+            out.req("deb.wrap", &["d".to_string(), es(t), cfg.to_string()]);
+        }
     }
     // the control-file wrappers (formatter `c`): Control at document level, Source / Binary on the
     // first paragraph; realistic control files with every formatted field, substitution variables,
